@@ -66,6 +66,7 @@ class Contract:
         self.notes = kw.get("notes", "")
         self.calls_inline = set(kw.get("calls_inline", []))
         self.reveal = set(kw.get("reveal", []))
+        self.exists = kw.get("exists", {})      # name -> {"len": expr, "witness": expr}: existentially quantified bytes in `returns`
         self.emits = kw.get("emits", {})        # ghost events appended at call sites: name -> expr
         self.scenario = kw.get("scenario", {})  # callee qualname -> clause assumed on its normal return (hypothesis about the environment)
         self._exprs = {}
@@ -510,6 +511,13 @@ class ContractSet:
         sfr.locals["result"] = result
         for n, src in c.post_lets.items():
             sfr.locals[n] = I.ev(c.expr(src), sfr)
+        for n, spec in c.exists.items():
+            try:
+                sfr.locals[n] = I.ev(c.expr(spec["witness"]), sfr)
+            except PyRaise as e:
+                P.oblige(f"{c.target}.exists.{n}", False, {"clause": f"witness {spec['witness']} raised {I.hobj(e.exc).cls.name}"})
+                return
+            self.check_clause(I, c, f"{c.target}.exists.{n}.len", f"len({n}) == ({spec['len']})", sfr)
         if c.returns is not None:
             self.check_clause(I, c, f"{c.target}.returns", f"result == ({c.returns})", sfr)
         for n, src in c.ensures.items():
@@ -620,8 +628,29 @@ class ContractSet:
         try:
             if k == 0:
                 self.havoc_modifies(I, c, sfr, c.modifies)
+                early = set()
+                for n, src in c.ensures.items():
+                    nm = {x.id for x in ast.walk(c.expr(src)) if isinstance(x, ast.Name)}
+                    if "result" in nm or nm & set(c.post_lets) or nm & set(c.exists) or "events(" in src or nm & set(c.assigns):
+                        continue
+                    if any(lv.split(".")[0] in nm for lv in list(c.assigns) + list(c.modifies)) and "old(" not in src and False:
+                        continue
+                    # clause about the state only: assumed before the result is built (it may make the result well defined)
+                    if c.assigns or c.modifies:
+                        continue
+                    t = self.eval_clause(I, c, src, sfr)
+                    P.assume(t.term())
+                    early.add(n)
+                for n, spec in c.exists.items():
+                    ln = I.resolve(I.ev(c.expr(spec["len"]), sfr))
+                    if not isinstance(ln, VInt):
+                        raise Unsupported("exists length")
+                    sfr.locals[n] = VBytes([View(z3.Const(fresh("ex_" + n), ARR), 0, ln.c if ln.c is not None else ln.as_int())])
                 if c.returns is not None:
-                    result = I.ev(c.expr(c.returns), sfr)
+                    try:
+                        result = I.ev(c.expr(c.returns), sfr)
+                    except PyRaise as e:
+                        raise Unsupported(f"`returns` of {c.target} raised {I.hobj(e.exc).cls.name} at a call site")
                 elif c.rtype:
                     result = self.make(I, c.rtype, "ret_" + c.target.split(".")[-1])
                 else:
@@ -638,7 +667,7 @@ class ContractSet:
                     return any(isinstance(x, ast.Name) and x.id in pool for x in ast.walk(c.expr(src)))
                 # pass 1: clauses that do not depend on post_let values (they may be what makes the lets well defined)
                 for n, src in c.ensures.items():
-                    if "events(" in src or uses(src, names):
+                    if "events(" in src or uses(src, names) or n in early:
                         continue
                     t = self.eval_clause(I, c, src, sfr)
                     P.assume(t.term())
